@@ -12,8 +12,9 @@
      del_local         Stack::delete_variable_local        (`delete_name_scoped` after a `from` loop)
    Compiled control flow (compiler/src/ast/{if_statement,while_loop,number_loop}.rs Compile impls): a
    condition is evaluated in the ENCLOSING frame, the body in a fresh special frame that is popped
-   afterwards; a named `from` counter is bound with store_fast in the enclosing frame before the loop,
-   bumped with bin_op_assign after every iteration and deleted afterwards unless it collided.
+   afterwards; a named `from` counter is bound in the enclosing frame before the loop (store_fast, or `store`
+   when it reuses an existing variable), bumped with bin_op_assign after every iteration and deleted
+   afterwards unless it collided.
 
    Values are opaque tokens (N); every rule may write ANY value.  Each binding carries two ghost fields:
    whether it was created by a `const` declaration and the value it was created with.  Every variable
@@ -119,7 +120,11 @@ Inductive ex : stack -> stmt -> stack -> log -> Prop :=
     ex st (SWhile c b) st3 (l1 ++ l2 ++ l3)
 | ex_from : forall st lo hi cn b st1 st1' st2 st3 st4 l1 l2 l3,
     ev st lo st1 l1 ->
-    match cn with None => st1' = st1 | Some x => exists v, st1' = reg_local st1 x v false end ->
+    (* the counter is bound with store_fast; since /repo 3f1880b with `store` when it collides *)
+    match cn with
+    | None => st1' = st1
+    | Some x => exists v, st1' = reg_local st1 x v false \/ st1' = reg_var st1 x v false
+    end ->
     ev st1' hi st2 l2 ->
     iter st2 cn b st3 l3 ->
     (* delete_name_scoped unless the counter collided with an existing variable *)
